@@ -624,6 +624,111 @@ def _expand_class_local_duplicates(trees, anchored_owner, resolve=None):
     return done
 
 
+def _tail_nodes(stmts):
+    """Statements in tail position of a statement list (after them nothing of the list runs)."""
+    out = []
+    if not stmts:
+        return out
+    last = stmts[-1]
+    out.append(last)
+    if isinstance(last, ast.If):
+        out += _tail_nodes(last.body) + _tail_nodes(last.orelse)
+    elif isinstance(last, ast.With):
+        out += _tail_nodes(last.body)
+    elif isinstance(last, ast.Try) and not last.finalbody:
+        out += _tail_nodes(last.orelse if last.orelse else last.body)
+        for h in last.handlers:
+            out += _tail_nodes(h.body)
+    return out
+
+
+def _expand_bool_guards(trees, keep):
+    """`if not self._helper(args): <return / raise>` (or without `not`), where the private helper does a part of the
+    host's work and reports with `return True` / `return False` whether the host should go on: the statement is replaced
+    by the helper's body, its "stop" returns become the host's terminal statement (wherever they are, also inside
+    handlers and loops) and its "go on" returns — which must be the last thing the helper does — simply fall through to
+    what follows the `if` in the host.  Equivalent, and gives the rules the code of the host in one piece again."""
+    defs = {}
+    for mod, tree in trees.items():
+        for st in tree.body:
+            if isinstance(st, ast.FunctionDef):
+                defs.setdefault(st.name, []).append(_Helper(st, None, mod))
+            elif isinstance(st, ast.ClassDef):
+                for m in st.body:
+                    if isinstance(m, ast.FunctionDef):
+                        defs.setdefault(m.name, []).append(_Helper(m, st, mod))
+    cands = {}
+    for nm, hs in defs.items():
+        if len(hs) != 1 or not _is_private(nm) or nm in keep or not _eligible_def(hs[0].node):
+            continue
+        rets = [r for r in ast.walk(hs[0].node) if isinstance(r, ast.Return)]
+        if rets and all(isinstance(r.value, ast.Constant) and isinstance(r.value.value, bool) for r in rets) and \
+                _terminal(hs[0].node.body):
+            cands[nm] = hs[0]
+    used = set()
+    for tree in trees.values():
+        for host in [n for n in ast.walk(tree) if isinstance(n, ast.FunctionDef)]:
+            if host.name in cands:
+                continue
+            for parent in ast.walk(host):
+                for fld in ('body', 'orelse', 'finalbody'):
+                    body = getattr(parent, fld, None)
+                    if not (isinstance(body, list) and body and isinstance(body[0], ast.stmt)):
+                        continue
+                    out = []
+                    for st in body:
+                        rep = None
+                        if isinstance(st, ast.If) and not st.orelse and _terminal(st.body):
+                            t, neg = st.test, False
+                            if isinstance(t, ast.UnaryOp) and isinstance(t.op, ast.Not):
+                                t, neg = t.operand, True
+                            if isinstance(t, ast.Call) and _call_name(t) in cands:
+                                h = cands[_call_name(t)]
+                                fake = ast.copy_location(ast.Return(value=t), st)
+                                inst = _instantiate(h, t, 'return', fake)
+                                if inst is not None:
+                                    stop_value = not neg          # `if H(): T` stops on True; `if not H(): T` on False
+                                    ok = True
+                                    sentinels = []
+
+                                    class RT(ast.NodeTransformer):
+                                        def visit_Return(self, r):
+                                            if r.value.value is stop_value:
+                                                return [copy.deepcopy(x) for x in st.body]
+                                            p_ = ast.copy_location(ast.Pass(), r)
+                                            sentinels.append(p_)
+                                            return p_
+
+                                        def visit_FunctionDef(self, n):
+                                            return n
+                                    new = []
+                                    for x in inst:
+                                        r = RT().visit(x)
+                                        new.extend(r if isinstance(r, list) else [r])
+                                    tails = _tail_nodes(new)
+                                    if all(any(s_ is t_ for t_ in tails) for s_ in sentinels):
+                                        rep = new
+                                        used.add(_call_name(t))
+                        if rep is not None:
+                            out.extend(rep)
+                        else:
+                            out.append(st)
+                    setattr(parent, fld, out)
+        ast.fix_missing_locations(tree)
+    removed = []
+    for nm in sorted(used):
+        left = sum(1 for tree in trees.values() for n in ast.walk(tree)
+                   if (isinstance(n, ast.Attribute) and n.attr == nm) or (isinstance(n, ast.Name) and n.id == nm))
+        if left == 0:
+            for tree in trees.values():
+                tree.body = [st for st in tree.body if not (isinstance(st, ast.FunctionDef) and st.name == nm)]
+                for st in tree.body:
+                    if isinstance(st, ast.ClassDef):
+                        st.body = [m for m in st.body if not (isinstance(m, ast.FunctionDef) and m.name == nm)] or [ast.Pass()]
+            removed.append(nm)
+    return sorted(used)
+
+
 def _expand_generator_delegation(trees, keep):
     """`yield from gen(args)` as a statement, with `gen` a generator function of the package that is defined once (public
     or private, module level or method called on self): the statement is replaced by the generator's body with its
@@ -708,6 +813,7 @@ def expand(trees, keep=frozenset(), anchored_owner=None, resolve=None):
     helpers that were inlined (and whose definitions were removed)."""
     inlined = list(_expand_expr_helpers(trees, keep))
     inlined.extend(x for x in _expand_generator_delegation(trees, keep) if x not in inlined)
+    inlined.extend(x for x in _expand_bool_guards(trees, keep) if x not in inlined)
     if anchored_owner is not None:
         inlined.extend(x for x in _expand_class_local_duplicates(trees, anchored_owner, resolve) if x not in inlined)
     _hoist_nested_helper_calls(trees, keep)
